@@ -130,8 +130,11 @@ def run(args):
             if not ok:
                 R.spec_fail(dict(kind="other-branches-changed"), f"set_ncomp on branch {b} changed column {col} of other branches", inp, col)
             for g, bs in gb.items():
-                got = sorted(set(cell.nodes.loc[np.asarray(cell.groups[g]).astype(int), "global_branch_index"].tolist()))
-                full = all(set(cell.nodes.index[cell.nodes.global_branch_index == bb]) <= set(np.asarray(cell.groups[g]).tolist()) for bb in bs)
+                labels = np.asarray(cell.groups[g]).astype(int)
+                if len(labels) and (labels.max() >= len(cell.nodes) or labels.min() < 0):
+                    R.spec_fail(dict(kind="group-branch-membership-changed"), f"group {g} refers to rows {labels.tolist()} that do not exist (table has {len(cell.nodes)} rows)", inp, labels.tolist()); continue
+                got = sorted(set(cell.nodes.loc[labels, "global_branch_index"].tolist()))
+                full = all(set(cell.nodes.index[cell.nodes.global_branch_index == bb]) <= set(labels.tolist()) for bb in bs)
                 if got != bs or not full:
                     R.spec_fail(dict(kind="group-branch-membership-changed"), f"group {g} was branches {bs}, now denotes branches {got} (complete={full})", inp, got)
             if list(cell.comb_parents) != parents:
